@@ -15,6 +15,27 @@ CLAIMS = {
         text="Rule-based static decision of the structural clauses: every _solv_outp_volt/_solv_inp_curr summary equals the documented law on every guard row for all inputs (algebraic identity, both polarities), interpolator arguments, wiring of forward/backward pass, child-current sum and row assembly of solve(). Decides the laws and their composition for all inputs; does not decide convergence to them.",
         note=TB + "Not decided: that the iteration converges to the fixed point of these laws (C03); floating-point error. Known finding K1 (negative Source with rs) is listed in known_findings.json.",
         ref="DESIGN.md section 4 C01"),
+    "C02": dict(
+        technique="algebraic identities between sibling function summaries (power/loss routine composed with the kind's own voltage and current laws), rational-function normal forms on every joint guard row",
+        text="Rule-based static decision: Power-Loss == |Vout|*Iout for all inputs of every non-load kind, Loss>=0 under constructor-justified sign lemmas, efficiency element is EFF(Power, Power-Loss), temperature rise/peak identities, load power-or-loss exclusivity, and the operands solve() hands to the power routine. The per-component identities are decided exactly; the system-wide balance is derived from them, not checked separately.",
+        note=TB + "Not decided: residual of the identities at a merely tolerance-converged iterate. For plain loads the rule is tr == rt*consumption (what test_case13 pins), deliberately not the literal 'rt x Loss' of the statement. Known finding K1 (negative Source) listed in known_findings.json.",
+        ref="DESIGN.md section 4 C02"),
+    "C04": dict(
+        technique="guarded summaries vs dead/sleep table on the dead and sleep guard rows; structural rules on solver state propagation and initialisation",
+        text="Static induction step: every law returns 0 A / 0 W / (0 V, OFF) on dead rows and exactly the sleep current/power on phase-inactive rows, OFF is only ever reported with literal 0 V, and the solver carries and initialises the off-state per node from its own parents. Together with the C01 wiring rules this gives isolation of the whole subtree.",
+        note=TB + "Not decided: that the off state has finished propagating when the tolerance test stops the sweep (C03).",
+        ref="DESIGN.md section 4 C04"),
+    "C06": dict(
+        technique="guard-row comparison of law summaries over the phase atoms (has-table / phase-listed); call-argument provenance; loop-carried dependence (reaching definitions over the phase loop's back edge)",
+        text="Static decision of the mapping phase -> behaviour for every kind, of the plumbing of the phase and per-node phase table from solve() to every law, of phase independence (no state carried between phase iterations except append-only accumulators), and of the phase-list / unknown-phase prologue.",
+        note=TB + "Inner loops are assumed to execute at least once in the loop-carried analysis (a carry that exists only on a zero-trip inner loop is missed, never invented). Not decided: numeric values per phase.",
+        ref="DESIGN.md section 4 C06"),
+    "C20": dict(
+        category="proof",
+        technique="exact rational normal forms of straight-line functions; identities discharged by cross-multiplication",
+        text="Both functions are straight-line closed forms; each clause of the statement (documented formula, proportionalities, affinity in temperature, symmetry, trace/plane agreement, defaults) is an identity between normal forms and all are discharged. This is the whole statement at formula level.",
+        note="Trusted base: CPython ast, sa/terms.py and fractions.Fraction. Float literals are read as exact decimals; IEEE rounding of the evaluation is outside the claim.",
+        ref="DESIGN.md section 4 C20"),
 }
 
 
